@@ -19,12 +19,13 @@ Record Inv (cf : cfg) (st : state) (tr : trace) : Prop := mkInv {
   i_ledger : forall n, pend_entries st.(st_pend) n = map entry_of (waiting tr n);
   i_nonempty : forall p, In p st.(st_pend) -> p.(p_entries) <> [];
   i_unowned : forall p, In p st.(st_pend) -> owner_of st p.(p_name) = None;
-  i_wk : forall p, In p st.(st_pend) -> exists k, p.(p_name) = Wk k
+  i_wk : forall p, In p st.(st_pend) -> exists k, p.(p_name) = Wk k;
+  i_svcs : wk_list st.(st_services)
 }.
 
-Lemma inv_init cf : Inv cf init [].
+Lemma inv_start cf : wk_services cf -> Inv cf (start cf) [].
 Proof.
-  constructor; simpl; try (intros; contradiction); try constructor; try reflexivity.
+  intros W. constructor; simpl; try (intros; contradiction); try constructor; try reflexivity. exact W.
 Qed.
 
 (* ---------------------------------------------------------------- consequences *)
@@ -184,9 +185,10 @@ Lemma inv_frame cf st tr e o st' :
   (forall c, connected st' c = live_step c (n_connects tr) e (connected st c)) ->
   st'.(st_next_conn) = st.(st_next_conn) + (if is_connect e then 1 else 0) ->
   (forall p, In p st.(st_pend) -> owner_of st' p.(p_name) = None) ->
+  wk_list st'.(st_services) ->
   Inv cf st' (tr ++ [(e, o)]).
 Proof.
-  intros I Hc Hf Hp Hs Hi Hconn Hn Ho.
+  intros I Hc Hf Hp Hs Hi Hconn Hn Ho Hsv.
   destruct (fated_ok_fresh tr e o (i_fated_lt _ _ _ I) (i_fated_nodup _ _ _ I) (or_introl Hf)) as [F1 F2].
   constructor; try rewrite Hp; try apply I; auto.
   - intros c. rewrite Hconn, live_snoc. rewrite (i_conn _ _ _ I). reflexivity.
